@@ -104,6 +104,11 @@ impl Scenario {
         self.cfg.horizon = steps;
         self
     }
+    /// consecutive steps one thread may take before the default choice rotates to another enabled thread
+    pub fn fair(mut self, n: u64) -> Self {
+        self.cfg.fair = n;
+        self
+    }
     pub fn caps(mut self, execs: u64, wall: f64) -> Self {
         self.max_execs = execs;
         self.max_wall = wall;
